@@ -28,7 +28,8 @@ pub fn battery_section(seed: u64, size: usize, sec: usize) -> Vec<(String, u64)>
                 let n = [1usize, 5, 40, 200][rep % 4];
                 let m = [v.min_m().max(2), 16, 100, 512][(rep + ci) % 4];
                 let ids = fresh_ids(&mut rng, n, 0);
-                let w: Vec<(u64, f64)> = ids.iter().map(|&d| (d, 10f64.powf(rng.random_range(-3.0..3.0)))).collect();
+                // real-valued weights, or small integer multiplicities (many items tied at the largest weight)
+                let w: Vec<(u64, f64)> = if rep % 2 == 1 { ids.iter().map(|&d| (d, rng.random_range(1..4u32) as f64)).collect() } else { ids.iter().map(|&d| (d, 10f64.powf(rng.random_range(-3.0..3.0)))).collect() };
                 let entries: Vec<Entry> = match v {
                     Pv::P2 => vec![Entry::Item, Entry::Wset, Entry::HashMapStd],
                     Pv::P3 => vec![Entry::Item, Entry::IdxMap, Entry::HashMapStd],
@@ -96,7 +97,8 @@ pub fn battery_section(seed: u64, size: usize, sec: usize) -> Vec<(String, u64)>
     if sec == 2 {
         // ---- ProbOrdMinHash2 on long sequences (tens of thousands of distinct elements that come back later)
         for rep in 0..2usize.min(size) {
-            let nd = [20_000usize, 9_000][rep % 2];
+            // more distinct elements than 2^16 in the first one
+            let nd = [70_000usize, 9_000][rep % 2];
             let ids = fresh_ids(&mut rng, nd, 0);
             let mut seq = ids.clone();
             seq.extend(ids.iter().rev().step_by(2));
